@@ -56,6 +56,9 @@ def _run_one(args):
             return res
         eng = Engine(hname, max_paths=h.max_paths)
         eng.forced_template = h.forced
+        if os.environ.get("VERIF_TIER") == "thorough" or os.environ.get("PYVC_TIER") == "thorough":
+            eng.wall_budget *= 6
+            eng.max_steps *= 6
 
         def wrapped(e):
             try:
@@ -118,6 +121,7 @@ def run_property(prop_id, tier="quick", seed=0, jobs=None, only=None, write_evid
     hs = [h for h in mod.harnesses() if tier == "thorough" or h.tier == "quick"]
     if only:
         hs = [h for h in hs if only in h.name]
+    os.environ["PYVC_TIER"] = tier
     jobs = jobs or min(16, max(1, len(hs)))
     work = [(modname, h.name, seed) for h in hs]
     results = []
@@ -125,8 +129,18 @@ def run_property(prop_id, tier="quick", seed=0, jobs=None, only=None, write_evid
         results = [_run_one(w) for w in work]
     else:
         ctx = mp.get_context("fork")
+        budget = HARNESS_TIMEOUT_S * (4 if tier == "thorough" else 1)
         with ctx.Pool(jobs) as pool:
-            results = pool.map(_run_one, work, chunksize=1)
+            pend = [(w, pool.apply_async(_run_one, (w,))) for w in work]
+            deadline = time.time() + budget
+            for w, ar in pend:
+                try:
+                    results.append(ar.get(timeout=max(1.0, deadline - time.time())))
+                except mp.TimeoutError:
+                    results.append({"harness": w[1], "obligations": [], "covers": {}, "paths": 0, "solver_time": 0.0,
+                                    "queries": 0, "kind": "contract", "wall": budget, "bounded": None, "notes": [],
+                                    "error": {"type": "timeout", "msg": f"no verdict within {budget}s (undecided)"}})
+            pool.terminate()
     hmap = {h.name: h for h in hs}
     known = [k for k in load_known_findings() if k.get("property") == prop_id and k.get("status", "open") == "open"]
     ledger = load_ledger().get(prop_id, {})
@@ -296,7 +310,8 @@ def run_property(prop_id, tier="quick", seed=0, jobs=None, only=None, write_evid
     if violations:
         code = 1
     elif errors:
-        code = 3 if pristine else 2
+        only_timeouts = all(e["type"] == "timeout" for _, e in errors)
+        code = 2 if (only_timeouts or not pristine) else 3
     elif undecided:
         code = 2
     else:
@@ -362,6 +377,7 @@ def run_property(prop_id, tier="quick", seed=0, jobs=None, only=None, write_evid
 
 
 MAX_REPLAYS_PER_OBLIGATION = 3
+HARNESS_TIMEOUT_S = 600
 
 DEFAULT_TRUSTED = [
     "CPython ast parser (the verified text is the ast of the working-tree file, re-read on every run)",
